@@ -130,6 +130,36 @@ func execOpAPISpare(c *Case, spare bool) Observation {
 	return obs
 }
 
+// mkInputsOverOneBuffer: operands that hold the same elements under different shapes are built as DISTINCT tensor objects over ONE
+// backing slice (a column and a row view of one vector, as a caller builds them with WithBacking). ok is false when the case has
+// no such pair.
+func mkInputsOverOneBuffer(c *Case) ([]tensor.Tensor, bool, error) {
+	inputs, err := mkInputs(c)
+	if err != nil || len(c.Same) > 0 {
+		return nil, false, err
+	}
+	found := false
+	for j := range c.Inputs {
+		if c.Inputs[j].Nil || len(c.Inputs[j].Shape) == 0 {
+			continue
+		}
+		bj, _ := json.Marshal(c.Inputs[j].Data)
+		for i := 0; i < j; i++ {
+			if c.Inputs[i].Nil || len(c.Inputs[i].Shape) == 0 || c.Inputs[i].Dt != c.Inputs[j].Dt || len(c.Inputs[i].Data) != len(c.Inputs[j].Data) || len(c.Inputs[i].Data) == 0 {
+				continue
+			}
+			bi, _ := json.Marshal(c.Inputs[i].Data)
+			if string(bi) != string(bj) || fmt.Sprint(c.Inputs[i].Shape) == fmt.Sprint(c.Inputs[j].Shape) {
+				continue
+			}
+			inputs[j] = tensor.New(tensor.WithShape(c.Inputs[j].Shape...), tensor.WithBacking(inputs[i].Data()))
+			found = true
+			break
+		}
+	}
+	return inputs, found, nil
+}
+
 // shareAttrBacking re-homes the list-valued attributes of a node in ONE array per element type: every list is a sub-slice whose
 // spare capacity runs over the lists that follow it (a proto built by hand from one parameter vector looks like this). Returns a
 // function that reports whether any attribute value has changed since.
@@ -354,6 +384,7 @@ func execOpAPITwice(c *Case) Observation {
 		return Observation{Kind: "harness", Note: err.Error()}
 	}
 	var obs Observation
+	orig := append([]tensor.Tensor{}, inputs...)
 	for k := 0; k < 2; k++ {
 		obs = guard(func() Observation {
 			op, err := opset13.GetOperator(c.Op)
@@ -373,6 +404,13 @@ func execOpAPITwice(c *Case) Observation {
 			}
 			return valueObs(res)
 		})
+		// the argument list is the caller's: the tensors in it are the ones the caller put there (an operator that swaps in a
+		// private copy or view makes the caller's next use of that list act on something else)
+		for i := range orig {
+			if inputs[i] != orig[i] {
+				return Observation{Kind: "nil", Note: fmt.Sprintf("after application %d the caller's argument list holds another tensor object at position %d", k+1, i)}
+			}
+		}
 	}
 	return obs
 }
@@ -527,6 +565,30 @@ func execOpCase(c *Case) []ModeResult {
 				out = append(out, ModeResult{"api:same-tensors-twice", Verdict(c, o2), o2.Short()})
 				o6 := execOpAPISpare(c, true)
 				out = append(out, ModeResult{"api:spare-capacity", Verdict(c, o6), o6.Short()})
+				if shared, ok, err := mkInputsOverOneBuffer(c); err == nil && ok {
+					ins, outs := ioNames(c)
+					if node, err := mkNode(c.Op, c.Attrs, ins, outs); err == nil {
+						o9 := guard(func() Observation {
+							op, err := opset13.GetOperator(c.Op)
+							if err != nil {
+								return observeErr(err)
+							}
+							if err := op.Init(node); err != nil {
+								return observeErr(err)
+							}
+							v, err := op.ValidateInputs(shared)
+							if err != nil {
+								return observeErr(err)
+							}
+							res, err := op.Apply(v)
+							if err != nil {
+								return observeErr(err)
+							}
+							return valueObs(res)
+						})
+						out = append(out, ModeResult{"api:operands-over-one-buffer", Verdict(c, o9), o9.Short()})
+					}
+				}
 				if o8, ok := execOpAPISharedAttrs(c); ok {
 					out = append(out, ModeResult{"api:attributes-in-one-array", Verdict(c, o8), o8.Short()})
 				}
@@ -605,6 +667,10 @@ func execHelperCase(c *Case) []ModeResult {
 	if r := execTiled(c); r != nil {
 		out = append(out, *r)
 	}
+	if shared, ok, err := mkInputsOverOneBuffer(c); err == nil && ok {
+		o2 := execHelperOn(c, shared)
+		out = append(out, ModeResult{"helper:operands-over-one-buffer", Verdict(c, o2), o2.Short()})
+	}
 	if r := execHelperRefilled(c); r != nil {
 		out = append(out, *r)
 	}
@@ -672,6 +738,10 @@ func execHelper(c *Case) Observation {
 	if err != nil {
 		return Observation{Kind: "harness", Note: err.Error()}
 	}
+	return execHelperOn(c, inputs)
+}
+
+func execHelperOn(c *Case, inputs []tensor.Tensor) Observation {
 	before := snapshotAll(inputs)
 	o := guard(func() Observation {
 		switch c.Op {
